@@ -126,7 +126,7 @@ ExpandOne(it, pos, lbls) ==
     [] OTHER -> \* lil
          LET v == CurVal(it, pos, lbls) IN
          IF Fits12(v)
-         THEN [items |-> << Mk("imml", src, 4, None, "addi", it.a, 0, it.t, "lo:" \o it.f, it.n) >>, shrink |-> 4]
+         THEN [items |-> << Mk("imml", src, 4, None, "addi", it.a, 0, it.t, "s32:" \o it.f, it.n) >>, shrink |-> 4]   \* the value itself, range-checked at encode time
          ELSE [items |-> << Mk("imml", src, 4, None, "lui", it.a, 0, it.t, "hi:" \o it.f, it.n),
                             Mk("imml", src, 4, None, "addi", it.a, it.a, it.t, "lo:" \o it.f, it.n) >>, shrink |-> 0]
 
@@ -151,8 +151,8 @@ RA(its, i, pos, lbls, out) ==
 
 (* ---------------- resolve_immediates + resolve_instructions ---------------- *)
 FinalVal(it, pos, lbls) ==
-  LET base == IF it.f \in {"bare", "lo:bare", "hi:bare"} THEN lbls[it.t]
-              ELSE IF it.f \in {"pos", "lo:pos", "hi:pos", "hipos", "lopos"} THEN it.n + lbls[it.t]
+  LET base == IF it.f \in {"bare", "lo:bare", "hi:bare", "s32:bare"} THEN lbls[it.t]
+              ELSE IF it.f \in {"pos", "lo:pos", "hi:pos", "hipos", "lopos", "s32:pos"} THEN it.n + lbls[it.t]
               ELSE lbls[it.t] - pos
       lim == Limbs(base)
   IN IF it.f \in {"lo:bare", "lo:pos", "lo:off", "lopos"} THEN Lo(lim[1], lim[2])
